@@ -8,24 +8,44 @@ from sym import *  # noqa
 from ir import *  # noqa
 
 
-@rule("R12.5", props=["C02", "C01", "C05", "C06", "C12", "C03"], floor=20, title="structure-rebuilding functions copy each carried field to the field of the same name")
+@rule("R12.5", props=["C02", "C01", "C05", "C06", "C12", "C03", "C13"], floor=20, title="structure-rebuilding functions copy each carried field to the field of the same name")
 def r12_5(ctx, rr):
     F = ctx.F()
+    from r_guards import simple_env
     for b in F.fns():
         if is_derived(b) or not b.params:
             continue
-        for n in walk(b.body):
-            if n.get("k") != "Struct" or range_of(F, n) is not None:
-                continue
+        structs = [n for n in walk(b.body) if n.get("k") == "Struct" and range_of(F, n) is None]
+        if not structs:
+            continue
+        T = None
+        pids = set(str(p.get("id")) for p in b.params if p.get("k") == "PBind")
+        for n in structs:
             carried = []
+            names = set(f["name"] for f in n["fields"])
             for f in n["fields"]:
                 e = f["e"]
                 # plain `src.field` where src is a parameter (self / value)
                 if e.get("k") == "Field" and e["e"].get("k") == "Path" and e["e"].get("res") == "local" and any(p.get("id") == e["e"].get("id") for p in b.params):
                     carried.append((f["name"], e["name"], e["e"]["name"]))
+                    continue
+                # ... or a local that is such a field (taken apart first: `let (bits, w, len) = value.into_raw_parts()`)
+                if e.get("k") == "Path" and e.get("res") == "local":
+                    if T is None:
+                        try:
+                            T = Walker(F, b)
+                            T.run()
+                        except Exception:
+                            T = False
+                    if T:
+                        t = T.expand(T.T.term(e))
+                        if t[0] == "field" and t[1][0] == "var" and str(t[1][2]).split("#")[0] in pids and isinstance(t[2], str):
+                            carried.append((f["name"], t[2], t[1][1]))
             same = [c for c in carried if c[0] == c[1]]
             diff = [c for c in carried if c[0] != c[1]]
-            if len(same) < 2:
+            # two fields of the rebuilt structure filled from each other's source (a tuple destructured in the wrong order)
+            crossed = [c for c in diff if c[1] in names and not c[1].isdigit()]
+            if len(same) < 2 and not (len(crossed) >= 2):
                 continue
             rr.instances += 1
             key = "%s:carries-fields" % short_fn(b.key)
@@ -34,7 +54,8 @@ def r12_5(ctx, rr):
                 # legitimate renames: target field absent in the source type (e.g. tuple newtype `.0`)
                 if d[1].isdigit():
                     continue
-                rr.violate(key, "%s rebuilds a structure from `%s` and initialises field `%s` from `%s.%s` while %d other fields are carried over under their own names: the wrong field is copied" % (b.key, d[2], d[0], d[2], d[1], len(same)), F.loc(n))
+                rr.violate(key, "%s rebuilds a structure from `%s` and initialises field `%s` from `%s.%s` while %d other fields are carried over under their own names: the wrong field is copied" % (b.key, d[2], d[0], d[2], d[1], len(same)), F.loc(n),
+                           exclude=None if "Atomic" in b.key else ["C13"])   # a conversion to or from an atomic vector is what concurrent writers go through
 
 
 @rule("R02.6", props=["C02"], floor=2, title="Select9::new pads every 16-bit table up to the next multiple of 8 strictly above the number of blocks")
